@@ -468,45 +468,54 @@ def fixedPrefix : RNode → Bool
   | .cloop _ _ _ lo hi => hi = some lo
   | _ => false
 
-/-- the comparison of `required` with `other` (T, Options, M, N, Ch, Set) -/
-def samePrefix : RNode → RNode → Bool
+/-- the comparison of `required` with `other` (T, Options, M, N, Ch, Set).
+
+    `fk` ("fixed loops up to their kind"): `finalOptimize` runs `findAndMakeLoopsAtomic` BEFORE the ending walk
+    that reduces the alternations in tail position again, so that second reduction compares node types some of
+    which the auto-atomic pass has just changed (`a{2}?x|a{2}y`: two different node types when the tree is
+    built, both `Oneloopatomic` afterwards if `x`, `y` cannot start with `a`).  Which loops became atomic is
+    decided by `canBeMadeAtomic` (validated by `AutoAtomic.cert`, not computed by this model); for a loop with
+    `M == N` the kind has no meaning (`samePrefix_m`), so the model of that second reduction is run in both
+    readings: kinds compared (`fk = false`), or ignored for fixed loops (`fk = true`). -/
+def samePrefix (fk : Bool) : RNode → RNode → Bool
   | .chr o p, .chr o' p' => o = o' && p = p'
-  | .cloop o k p lo hi, .cloop o' k' p' lo' hi' => o = o' && k = k' && p = p' && lo = lo' && hi = hi'
+  | .cloop o k p lo hi, .cloop o' k' p' lo' hi' =>
+    o = o' && (decide (k = k') || (fk && decide (hi = some lo))) && p = p' && lo = lo' && hi = hi'
   | _, _ => false
 
 def dropFirst : RNode → RNode
   | .cat o (_ :: cs) => .cat o cs
   | n => n
 
-def countSame (req : RNode) : List RNode → Nat
+def countSame (fk : Bool) (req : RNode) : List RNode → Nat
   | [] => 0
   | b :: bs =>
     match firstOf b with
-    | some c => if samePrefix req c then countSame req bs + 1 else 0
+    | some c => if samePrefix fk req c then countSame fk req bs + 1 else 0
     | none => 0
 
-def factorSetGo (red : Bool → RNode → RNode) (pa : Bool) (o : Nat) : Nat → List RNode → List RNode
+def factorSetGo (red : Bool → RNode → RNode) (fk pa : Bool) (o : Nat) : Nat → List RNode → List RNode
   | 0, cs => cs
   | _ + 1, [] => []
   | _ + 1, [x] => [x]
   | fuel + 1, x :: y :: rest =>
     match firstOf x with
-    | none => x :: factorSetGo red pa o fuel (y :: rest)
+    | none => x :: factorSetGo red fk pa o fuel (y :: rest)
     | some req =>
-      if !fixedPrefix req then x :: factorSetGo red pa o fuel (y :: rest)
+      if !fixedPrefix req then x :: factorSetGo red fk pa o fuel (y :: rest)
       else
-        let k := countSame req (y :: rest)
-        if k = 0 then x :: factorSetGo red pa o fuel (y :: rest)
+        let k := countSame fk req (y :: rest)
+        if k = 0 then x :: factorSetGo red fk pa o fuel (y :: rest)
         else
           let group := x :: (y :: rest).take k
           let branches := group.map (fun b => red false (dropFirst b))
           let inner :=
             if pa then red false (.atomic (red true (.alt o branches)))
             else red false (.alt o branches)
-          red false (.cat o [req, inner]) :: factorSetGo red pa o fuel ((y :: rest).drop k)
+          red false (.cat o [req, inner]) :: factorSetGo red fk pa o fuel ((y :: rest).drop k)
 
-def factorSet (red : Bool → RNode → RNode) (pa : Bool) (o : Nat) (cs : List RNode) : RNode :=
-  if cs.all (fun c => (firstOf c).isSome) then mkAlt o (factorSetGo red pa o cs.length cs)
+def factorSet (red : Bool → RNode → RNode) (fk pa : Bool) (o : Nat) (cs : List RNode) : RNode :=
+  if cs.all (fun c => (firstOf c).isSome) then mkAlt o (factorSetGo red fk pa o cs.length cs)
   else .alt o cs
 
 /-! ## `removeRedundantEmptiesAndNothings` -/
@@ -525,21 +534,21 @@ def removeEmpties (ll : Bool) (o : Nat) (cs : List RNode) : RNode := mkAlt o (re
 
 /-- `reduceAlternation` after `reduceSingleLetterAndNestedAlternations`: the two prefix extractions
     (gated, left-to-right), then `removeRedundantEmptiesAndNothings` -/
-def reduceAltFrom (red : Bool → RNode → RNode) (ll on pa rtl : Bool) : RNode → RNode
+def reduceAltFrom (red : Bool → RNode → RNode) (ll fk on pa rtl : Bool) : RNode → RNode
   | .alt o1 cs1 =>
     match (if on && !rtl then factorText red pa o1 cs1 else .alt o1 cs1) with
     | .alt o2 cs2 =>
-      match (if on && !rtl then factorSet red pa o2 cs2 else .alt o2 cs2) with
+      match (if on && !rtl then factorSet red fk pa o2 cs2 else .alt o2 cs2) with
       | .alt o3 cs3 => removeEmpties ll o3 cs3
       | n3 => n3
     | n2 => n2
   | n1 => n1
 
-def reduceAlt (red : Bool → RNode → RNode) (ll on pa rtl : Bool) (o : Nat) (cs : List RNode) : RNode :=
+def reduceAlt (red : Bool → RNode → RNode) (ll fk on pa rtl : Bool) (o : Nat) (cs : List RNode) : RNode :=
   match cs with
   | [] => .nothing
   | [c] => c
-  | _ => reduceAltFrom red ll on pa rtl (mkAlt o (mergeLetters ll cs))
+  | _ => reduceAltFrom red ll fk on pa rtl (mkAlt o (mergeLetters ll cs))
 
 /-! ## `reduceAtomic` -/
 
@@ -630,13 +639,13 @@ def reduceAtomic (red : Bool → RNode → RNode) (ll on rtl : Bool) : RNode →
 /-- `reduce()` on a node whose children are reduced; `pa` = its parent is an Atomic node.
     `reduceRep`, `reduceLookaround` and the conditionals are the identity here (a reduced node is a
     fixed point of theirs; their ending-backtracking part belongs to `AutoAtomic.cert`). -/
-def reduceNode (ll on rtl : Bool) : Nat → Bool → RNode → RNode
+def reduceNode (ll fk on rtl : Bool) : Nat → Bool → RNode → RNode
   | 0, _, n => n
   | fuel + 1, pa, n =>
     match n with
-    | .alt o cs => reduceAlt (reduceNode ll on rtl fuel) ll on pa rtl o cs
+    | .alt o cs => reduceAlt (reduceNode ll fk on rtl fuel) ll fk on pa rtl o cs
     | .cat o cs => reduceCat ll rtl o cs
-    | .atomic b => reduceAtomic (reduceNode ll on rtl fuel) ll on rtl (.atomic b)
+    | .atomic b => reduceAtomic (reduceNode ll fk on rtl fuel) ll on rtl (.atomic b)
     | .chr o p => .chr o (reduceCP p)
     | .cloop o k p lo hi => .cloop o k (reduceCP p) lo hi
     | n => n
@@ -754,15 +763,15 @@ def reduceAll (ll on dg : Bool) (fuel : Nat) (rtl pa : Bool) : RNode → RNode
     -- when no child changed the un-gated first pass has been done already (on the children as they were
     -- before Nothing / a second Empty went away: repeating it on its own output could merge more)
     let cs' := reduceAlls ll on dg fuel rtl cs
-    if changedAny cs cs' then reduceNode ll on rtl fuel pa (.alt o cs')
-    else reduceAltFrom (reduceNode ll on rtl fuel) ll on pa rtl (.alt o cs)
+    if changedAny cs cs' then reduceNode ll false on rtl fuel pa (.alt o cs')
+    else reduceAltFrom (reduceNode ll false on rtl fuel) ll false on pa rtl (.alt o cs)
   | .cat o cs =>
     let cs' := reduceAlls ll on dg fuel rtl cs
-    if changedAny cs cs' then reduceNode ll on rtl fuel pa (.cat o cs') else .cat o cs
+    if changedAny cs cs' then reduceNode ll false on rtl fuel pa (.cat o cs') else .cat o cs
   | .atomic b =>
     -- `reduceAtomic`, then (when an Atomic node remains) `child.eliminateEndingBacktracking()`
-    match reduceNode ll on rtl fuel pa (.atomic (reduceAll ll on dg fuel rtl dg b)) with
-    | .atomic x => if on then .atomic (endElim (reduceNode ll on rtl fuel) fuel rtl true false x) else .atomic x
+    match reduceNode ll false on rtl fuel pa (.atomic (reduceAll ll on dg fuel rtl dg b)) with
+    | .atomic x => if on then .atomic (endElim (reduceNode ll false on rtl fuel) fuel rtl true false x) else .atomic x
     | r => r
   | .loop lzy lo hi b => .loop lzy lo hi (reduceAll ll on dg fuel rtl false b)
   | .cap g b => .cap g (reduceAll ll on dg fuel rtl false b)
@@ -770,11 +779,11 @@ def reduceAll (ll on dg : Bool) (fuel : Nat) (rtl pa : Bool) : RNode → RNode
     -- `reduceLookaround`: `n.eliminateEndingBacktracking()` (the walk enters the child; a lookbehind's
     -- child is right-to-left and stops it)
     let b' := reduceAll ll on dg fuel bh false b
-    .look bh ng (if on then endElim (reduceNode ll on bh fuel) fuel bh false false b' else b')
+    .look bh ng (if on then endElim (reduceNode ll false on bh fuel) fuel bh false false b' else b')
   | .refCond g y n => .refCond g (reduceAll ll on dg fuel rtl false y) (reduceAll ll on dg fuel rtl false n)
   | .exprCond c y n =>
     let c' := reduceAll ll on dg fuel rtl false c
-    .exprCond (if on then endElim (reduceNode ll on rtl fuel) fuel rtl false false c' else c')
+    .exprCond (if on then endElim (reduceNode ll false on rtl fuel) fuel rtl false false c' else c')
       (reduceAll ll on dg fuel rtl false y) (reduceAll ll on dg fuel rtl false n)
   | n => n
 def reduceAlls (ll on dg : Bool) (fuel : Nat) (rtl : Bool) : List RNode → List RNode
@@ -783,10 +792,11 @@ def reduceAlls (ll on dg : Bool) (fuel : Nat) (rtl : Bool) : List RNode → List
 end
 
 /-- the whole pattern: `reduce` as the tree is built, then (left-to-right patterns only)
-    `finalOptimize`'s `rootNode.eliminateEndingBacktracking()` from the implicit root capture -/
-def rewriteTop (ll dg : Bool) (fuel : Nat) (rtl : Bool) (n : RNode) : RNode :=
+    `finalOptimize`'s `rootNode.eliminateEndingBacktracking()` from the implicit root capture — which runs
+    after `findAndMakeLoopsAtomic`, hence `fk` (see `samePrefix`) -/
+def rewriteTop (ll fk dg : Bool) (fuel : Nat) (rtl : Bool) (n : RNode) : RNode :=
   let r := reduceAll ll true dg fuel rtl false n
-  endElim (reduceNode ll true rtl fuel) fuel rtl false true r
+  endElim (reduceNode ll fk true rtl fuel) fuel rtl false true r
 
 /-! ## the bump-along marker (`finalOptimize`) -/
 
